@@ -8,6 +8,7 @@ from pyvc.repo import Ty
 PROP = "C38"
 CREATE = "openpectus.aggregator.aggregator:Aggregator.create_engine_id"
 HANDLE = "openpectus.aggregator.aggregator_message_handlers:AggregatorMessageHandlers.handle_RegisterEngineMsg"
+HASCONN = "openpectus.protocol.aggregator_dispatcher:AggregatorDispatcher.has_connected_engine_id"
 LEVEL = "proof"
 
 
@@ -111,11 +112,18 @@ CONTRACTS = [
                     "self.aggregator.has_registered_engine_id": _has_registered,
                     "create_analysis_input.cache_clear": _noop},
              on_exit=_on_exit),
+    # the ghost predicate `connected` IS membership of the id in the dispatcher's channel map (keyed by the ids create_engine_id issues)
+    Contract(target=HASCONN, types={"self": "AggregatorDispatcher", "engine_id": "str",
+                                    "AggregatorDispatcher._engine_id_channel_map": "dict[str, RpcChannel]"},
+             ensures=[("connected-means-the-exact-id-is-a-key-of-the-channel-map",
+                       "result == has_key(self._engine_id_channel_map, engine_id)")], raises={},
+             options={"lenient": True}),
 ]
-TARGETS = [HANDLE]
+TARGETS = [HANDLE, HASCONN]
+REPLAY_WITHOUT_WITNESS = True
 LEMMAS = [("create_engine_id-injective", lemma_injective)]
 TRUSTED = ["urllib.parse.quote(s, '') injective (assumed; unquote is its inverse)",
-           "dispatcher.has_connected_engine_id modelled as a ghost predicate on ids"]
+           "the channel map is keyed by the ids create_engine_id issued (on_client_connect stores the id the engine was given)"]
 CLAUSES = {"different (computer,uod) pairs get different ids": "lemma create_engine_id-injective (all strings)",
            "a registration cannot take over a connected engine's id": "postconditions connected-id-is-refused / connected-id-not-reregistered on handle_RegisterEngineMsg (all paths)"}
 EXPLANATION = ("Relational lemma over two symbolic executions of the real create_engine_id body (string theory, all inputs) "
@@ -125,6 +133,16 @@ EXPLANATION = ("Relational lemma over two symbolic executions of the real create
 def replay(obligation, witness):
     from openpectus.aggregator.aggregator import Aggregator
     import openpectus.protocol.engine_messages as EM
+    if "has_connected_engine_id" in obligation:
+        from openpectus.protocol.aggregator_dispatcher import AggregatorDispatcher
+        d = object.__new__(AggregatorDispatcher)
+        ids = ["pc_uod", "PC%201_uod", "PC%2B1_uod", "lab%2Fpc_uod", "Pr%C3%B8ve_uod", "a%25b_uod"]
+        for present in ids:
+            d._engine_id_channel_map = {present: object()}
+            for asked in ids + ["PC 1_uod", "PC+1_uod", "a%b_uod"]:
+                if bool(d.has_connected_engine_id(asked)) != (asked == present):
+                    return {"confirmed": True, "channel_map_keys": [present], "asked": asked, "answer": bool(d.has_connected_engine_id(asked))}
+        return {"confirmed": False, "reason": "the ids tried are answered exactly"}
     if "computer_name1" not in (witness or {}):
         return {"confirmed": False, "reason": "no concrete input"}
 
